@@ -650,6 +650,114 @@ fn grid_cases() -> Vec<Case> {
     v
 }
 
+// -------------------------------------------------------------------------------------------------
+// a link created at run time from the channel of a link that is transmitting at that moment
+// -------------------------------------------------------------------------------------------------
+
+thread_local! {
+    static PROBE_GATES: RefCell<Vec<GateRef>> = const { RefCell::new(Vec::new()) };
+    static PROBE_LOG: RefCell<Vec<(u16, u64, bool)>> = const { RefCell::new(Vec::new()) };
+}
+
+struct ProbeTx {
+    big: usize,
+    small: usize,
+    /// send instants on the new link
+    later: Vec<u64>,
+}
+
+impl Module for ProbeTx {
+    fn at_sim_start(&mut self, _: usize) {
+        schedule_at(Message::default().kind(TIMER).id(0), SimTime::from_duration(Duration::from_nanos(1_000_000)));
+        for (i, t) in self.later.iter().enumerate() {
+            schedule_at(Message::default().kind(TIMER).id(1 + i as u16), SimTime::from_duration(Duration::from_nanos(*t)));
+        }
+    }
+
+    fn handle_message(&mut self, msg: Message) {
+        if msg.header().kind != TIMER {
+            return;
+        }
+        if msg.header().id == 0 {
+            // the first link starts a long transmission; the second link is created with its channel as the template
+            send(Message::default().id(100).with_content(Pay { seq: 100, size: self.big }), "out");
+            let template = current().gate("out", 0).and_then(|g| g.channel());
+            let (a, b) = PROBE_GATES.with(|g| (g.borrow()[0].clone(), g.borrow()[1].clone()));
+            // connect() gives the direction self -> other its own copy of the channel (the other direction shares the
+            // object that was passed in, i.e. here the transmitting channel itself, which is busy by rights)
+            a.connect(b, template);
+        } else {
+            let busy = current().gate("aux", 0).and_then(|g| g.channel()).is_some_and(|c| c.is_busy());
+            PROBE_LOG.with(|l| l.borrow_mut().push((msg.header().id, now_ns(), busy)));
+            send(Message::default().id(msg.header().id).with_content(Pay { seq: u64::from(msg.header().id), size: self.small }), "aux");
+        }
+    }
+}
+
+struct ProbeRx;
+impl Module for ProbeRx {
+    fn handle_message(&mut self, msg: Message) {
+        let aux = msg.header().last_gate.as_ref().is_some_and(|g| g.name() == "aux");
+        if aux {
+            PROBE_LOG.with(|l| l.borrow_mut().push((1000 + msg.header().id, now_ns(), false)));
+        }
+    }
+}
+
+/// The new link has carried nothing yet: it must be idle, and well separated messages on it are each delivered
+/// after exactly transmission time + latency.
+fn runtime_connect_probe(rng: &mut Rng) -> Vec<Finding> {
+    let bitrate = *rng.pick(&[8_000usize, 1_000_000, 80_000]);
+    let latency = *rng.pick(&[0u64, 1_000_000, 30_000_000]);
+    let drop = rng.chance(1, 2);
+    let big = 1000 + rng.usize_below(3000);
+    let small = rng.usize_below(200);
+    let busy_for = tx_ns(big + HEADER, bitrate);
+    let gap = tx_ns(small + HEADER, bitrate) + latency + 1_000_000;
+    // some of the later sends fall into the busy period of the first link, some after it
+    let first = 1_000_000 + if rng.chance(1, 2) { busy_for / 3 } else { busy_for + 5_000_000 };
+    let later: Vec<u64> = (0..3).map(|i| first + i * gap).collect();
+    PROBE_LOG.with(|l| l.borrow_mut().clear());
+    let later2 = later.clone();
+    let res = vcommon::catch(move || {
+        let mut sim = Sim::new(());
+        sim.node("tx", ProbeTx { big, small, later: later2 });
+        sim.node("rx", ProbeRx);
+        let policy = if drop { ChannelDropBehaviour::Drop } else { ChannelDropBehaviour::Queue(None) };
+        let metrics = ChannelMetrics::new(bitrate, Duration::from_nanos(latency), Duration::ZERO, policy);
+        let out = sim.gate("tx", "out");
+        let inp = sim.gate("rx", "in");
+        out.connect(inp, Some(Channel::new(metrics)));
+        let a = sim.gate("tx", "aux");
+        let b = sim.gate("rx", "aux");
+        PROBE_GATES.with(|g| *g.borrow_mut() = vec![a, b]);
+        let rt = Builder::seeded(1).quiet().build(sim.freeze());
+        rt.run().map(|_| ()).map_err(|e| format!("{e}"))
+    });
+    PROBE_GATES.with(|g| g.borrow_mut().clear());
+    let log = PROBE_LOG.with(|l| std::mem::take(&mut *l.borrow_mut()));
+    let mut f = Vec::new();
+    match res {
+        Err(p) => f.push(("panicked", format!("connecting a link at run time panicked: {p}"))),
+        Ok(Err(e)) => f.push(("run-error", e)),
+        Ok(Ok(())) => {
+            for (i, t) in later.iter().enumerate() {
+                let id = 1 + i as u16;
+                if log.iter().any(|(k, _, busy)| *k == id && *busy) {
+                    f.push(("busy-flag", format!("a link created at run time (template: the channel of a link that was transmitting) reports busy at {t} ns although nothing is being transmitted on it")));
+                }
+                let want = t + tx_ns(small + HEADER, bitrate) + latency;
+                match log.iter().find(|(k, _, _)| *k == 1000 + id) {
+                    Some((_, at, _)) if *at == want => {}
+                    Some((_, at, _)) => f.push(("arrival-time", format!("message offered at {t} ns to an idle link created at run time arrived at {at} ns, expected {want} ns"))),
+                    None => f.push(("not-delivered", format!("message offered at {t} ns to an idle link created at run time (policy {}) was never delivered", if drop { "Drop" } else { "Queue" }))),
+                }
+            }
+        }
+    }
+    f
+}
+
 pub fn cmd(args: &Args) -> Report {
     let mut rep = Report::new("C07");
     let mut rng = Rng::new(args.stream_seed("c07"));
@@ -670,6 +778,12 @@ pub fn cmd(args: &Args) -> Report {
         } else {
             break;
         };
+        if i % 100 == 1 {
+            rep.count("links_created_at_run_time_from_a_busy_template", 1);
+            for (kind, detail) in runtime_connect_probe(&mut rng).into_iter().take(1) {
+                rep.violation(&format!("C07/{kind}"), &detail, json!({"driver": "desmon", "sub": "c07", "runtime_connect_probe": true}));
+            }
+        }
         let seed = rng.next_u64();
         vcommon::mark_case(&format!("c07:{}:{}:{}", args.seed, args.shard, i));
         let o = execute(&case, seed);
